@@ -492,16 +492,21 @@ where
         feature_class: u64,
         only_baked: bool,
     ) -> (TrackDistanceOk<OA>, TrackDistanceErr<OA>) {
-        let tracks_vec = self.fetch_tracks(tracks);
-
-        let res = self.foreign_track_distances(tracks_vec.clone(), feature_class, only_baked);
+        // The queried tracks stay in the store (copies are used as candidates): every queried
+        // track is compared with all other stored tracks, including the other queried ones,
+        // whatever the schedule of the workers is. Workers skip the pair (track, itself).
+        let tracks_vec = tracks
+            .iter()
+            .filter_map(|track_id| self.get_store(*track_id as usize).get(track_id).cloned())
+            .collect::<Vec<_>>();
 
         #[cfg(similari_verif)]
-        crate::verif_hooks::point("store.owned.between", tracks_vec.len() as u64, 0);
+        let verif_tracks_len = tracks_vec.len() as u64;
 
-        for t in tracks_vec {
-            self.add_track(t).unwrap();
-        }
+        let res = self.foreign_track_distances(tracks_vec, feature_class, only_baked);
+
+        #[cfg(similari_verif)]
+        crate::verif_hooks::point("store.owned.between", verif_tracks_len, 0);
 
         res
     }
